@@ -376,6 +376,7 @@ def EXPECTED_BRANCHES(ctx):
         'cn3_warr', 'rn2x3', 'pow_op', 'pow_tuple', 'mul_op', 'ps_wconst', 'ps_warr', 'ps_exp1',
         'discr_w', 'discr_exp', 'mini')]
     exp += ['reach/mini-defaults']
+    exp += ['reach/elemopts/{}/{}'.format(n, o) for n in ('rn3x4', 'cn2x3', 'discr3x4') for o in 'CF']
     exp += ['reach/index/' + n for n in ('rn6', 'cn5', 'int6', 'rn3x4', 'rn6_warr', 'discr6', 'discr3x4')]
     exp += ['reach/pindex/' + n for n in ('power3', 'mixed', 'nested', 'cpower')]
     exp += ['reach/preal/' + n for n in ('cpower', 'rpower', 'cmixed', 'cnested')]
@@ -2053,6 +2054,43 @@ def run_reach(ctx):
         ctx.hit('reach/preal/' + sname)
         viol('ProductSpaceElement real/imag/conj/asarray space={}'.format(sname), problems, {'space': sname})
 
+    # --- S5: NumpyTensorSpace.element options (order=, data_ptr=) as sources of lincomb operands
+    for sname, space in [('rn3x4', odl.rn((3, 4))), ('cn2x3', odl.cn((2, 3))),
+                         ('discr3x4', odl.uniform_discr([0, 0], [1, 1], (3, 4)))]:
+        ts = space.tspace if hasattr(space, 'tspace') else space
+        for order in ('C', 'F'):
+            problems = []
+            try:
+                a, b = rng.choice([1, -1, 2, -0.5]), rng.choice([1, -1, 0.25])
+                A1 = np.asarray(rand_elem(space, rng).asarray())
+                base = rand_elem(space, rng)
+                x1 = ts.element(A1, order=order)
+                x2 = ts.element(data_ptr=(base.tensor if hasattr(base, 'tensor') else base).data_ptr,
+                                order=space.default_order)
+                out = ts.element(order=order)
+                if not (x1.data.flags.f_contiguous if order == 'F' else x1.data.flags.c_contiguous):
+                    problems.append('element(arr, order) ignored the order')
+                X1, X2 = _ex(x1), _ex(x2)
+                if X1 != exact_list(A1) or X2 != _ex(base):
+                    problems.append('element(arr, order=) / element(data_ptr=) hold other values')
+                ts.lincomb(a, x1, b, x2, out=out)
+                if _ex(out) != oracle_elem('lincomb', X1, X2, fval(a), fval(b)):
+                    problems.append('lincomb on elements made with order= / data_ptr= wrong')
+                if _ex(x1) != X1 or _ex(x2) != X2 or _ex(base) != X2:
+                    problems.append('lincomb modified an operand made with order= / data_ptr=')
+                for bad in (lambda: ts.element(order='K'), lambda: ts.element(data_ptr=x1.data_ptr)):
+                    try:
+                        bad()
+                        problems.append('bad element() options accepted')
+                    except ValueError:
+                        pass
+            except Exception as e:  # noqa
+                problems.append('err:' + type(e).__name__ + ':' + str(e)[:120])
+            ctx.case(('reach-elemopts', sname, order))
+            ctx.hit('reach/elemopts/{}/{}'.format(sname, order))
+            viol('element(order=/data_ptr=) operands space={} order={}'.format(sname, order), problems,
+                 {'space': sname, 'order': order})
+
 
 # ---------------------------------------------------------------------------
 # malformed calls of LinearSpace.lincomb: rejected before anything is written
@@ -2685,6 +2723,21 @@ def replay(ctx, case):
             c['a'], c['b'] = int(c['a']), int(c['b'])
         _, status, _, problems, _ = run_lincomb_case(c, small, medium)
         return '; '.join(problems) if problems else None
+    if case.get('kind') in ('reach', 'opfront'):
+        # the strata are cheap and deterministic in structure: re-run the stratum on the real
+        # code and report what it finds for the same space
+        class _Sub(object):
+            pass
+        sub = _Sub()
+        sub.rng, sub.quick, sub.found = ctx.rng, True, []
+        sub.case = lambda *a, **k: None
+        sub.hit = lambda *a, **k: None
+        sub.disagree = lambda *a, **k: None
+        sub.violation = lambda key, what, desc: sub.found.append((key, what, desc))
+        (run_reach if case['kind'] == 'reach' else run_opfront)(sub)
+        hits = [w for k, w, d in sub.found if d.get('space') == case.get('space') and
+                d.get('op') == case.get('op')]
+        return hits[0] if hits else None
     if case.get('kind') == 'pmuldiv':
         for c in pmuldiv_cases(ctx):
             if (c['space'], c['f'], c['alias']) == (case['space'], case['f'], case['alias']):
